@@ -25,9 +25,10 @@ def run_both(rep, tier, seed, which):
                 if "catalogue" not in v:
                     rep.sample(v)
     res_file = vec + ".res"
-    p = run_harness(exe, ["replay-C06", vec, res_file], timeout=3000)
+    cmd = "replay-C06" if which == "C06" else "replay-C17"    # replay-C17 judges isset only, whatever the access itself does
+    p = run_harness(exe, [cmd, vec, res_file], timeout=3000)
     if p.returncode != 0:
-        raise Inconclusive("harness replay-C06 failed: " + (p.stderr or p.stdout)[-2000:])
+        raise Inconclusive("harness %s failed: " % cmd + (p.stderr or p.stdout)[-2000:])
     n = 0
     with open(res_file) as f:
         for line in f:
@@ -41,7 +42,7 @@ def run_both(rep, tier, seed, which):
                 raise Inconclusive("harness: " + str(r.get("detail")))
             is_isset = r["sig"]["kind"].startswith("isset")
             if (which == "C17") == is_isset:
-                rep.violation(r["sig"], {"replay_cmd": "replay-C06", "vector": r.get("case"), "observed": r.get("observed"),
+                rep.violation(r["sig"], {"replay_cmd": cmd, "vector": r.get("case"), "observed": r.get("observed"),
                                          "expected": r.get("expected"), "detail": r.get("detail")})
             elif which == "C17":
                 # the access itself misbehaves (C06's business): isset of this path was not evaluated
@@ -58,7 +59,7 @@ def replay(path):
     wd = scratch()
     v = os.path.join(wd, "v.ndjson")
     open(v, "w").write(json.dumps(case["vector"]) + "\n")
-    run_harness(exe, ["replay-C06", v, v + ".res"])
+    run_harness(exe, [case.get("replay_cmd", "replay-C06"), v, v + ".res"])
     r = json.loads(open(v + ".res").readline())
     print(json.dumps(r, indent=1)[:4000])
     return 0 if r["ok"] else 1
